@@ -266,6 +266,8 @@ def run(ctx):
     differ of the parent object looks the table up for that key.  diff_dicts does so under a guard; the guard is evaluated
     here, three-valued, for every whole-path entry of the category table with: the JSON types nbformat's schema admits at
     the path, the `atomic_paths` literal of notebook_config, and the fallback of DiffConfig.is_atomic."""
+    ctx.rule('R14.7', 'in diff_dicts no entry for a key present on both sides is emitted past the differ table: every builder call in the common-key loop is '
+             'either the result of the table lookup or lies on the branch where the lookup guard is false (atomic / type change)', floor=2)
     ctx.rule('R14.6', 'key filters stack: diff_ignore_keys filters the output of the very differ it was given, with the key list it was given', floor=2)
     ctx.rule('R14.5', 'every path a category is ignored at as a whole is looked up in the differ table by its parent differ, '
              'for every JSON type the schema admits there (atomic paths included)', floor=6)
@@ -330,3 +332,33 @@ def run(ctx):
                      'values at %s are atomic for the differ (%s), so diff_dicts never looks the path up in the differ table: ignoring %s has no effect '
                      'and two notebooks differing only there still produce a diff' % (
                          path, 'atomic_paths entry' if path in atomic else 'type %s' % t, cat), st)
+
+    # ---------------------------------------------------------------- R14.7
+    loop = None
+    for n in walk_no_nested(dd):
+        if isinstance(n, ast.For) and any(x is lookups[0] for x in ast.walk(n)):
+            loop = n
+    if loop is None:
+        raise AnalysisError('diff_dicts: loop holding the differ-table lookup not found')
+    lookup_if = None
+    p_ = repo.parent(st)
+    while p_ is not None and p_ is not loop:
+        if isinstance(p_, ast.If) and any(x is st for b in p_.body for x in ast.walk(b)):
+            lookup_if = p_
+        p_ = repo.parent(p_)
+    if lookup_if is None:
+        raise AnalysisError('diff_dicts: the differ-table lookup is not under a guard')
+    emits = [c for c in calls_in(loop) if isinstance(c.func, ast.Attribute) and dotted(c.func.value) == 'di' and
+             c.func.attr in ('replace', 'patch', 'add', 'remove', 'append')]
+    if not emits:
+        raise AnalysisError('diff_dicts: no builder calls in the common-key loop')
+    for c in emits:
+        cst = repo.stmt_of(c)
+        in_lookup_branch = any(x is cst for b in lookup_if.body for x in ast.walk(b))
+        on_negative_branch = any(t is lookup_if.test and pol is False for t, pol in cond_guards(g, cst))
+        ok = in_lookup_branch or on_negative_branch
+        ctx.inst('R14.7', GEN + ':diff_dicts', repo.norm(c), ok,
+                 'emitted from the configured differ\'s result' if in_lookup_branch else
+                 ('emitted only for values the lookup guard rejects (atomic or of changed type)' if ok else
+                  'this entry is emitted for a key present on both sides without consulting the differ table: an ignore installed for the path '
+                  '(e.g. /cells/*/source) is bypassed for the inputs this shortcut catches'), c)
